@@ -3293,6 +3293,12 @@ def rename_comprehension_targets(fnode, counter):
             stores[x.id] = stores.get(x.id, 0) + 1
     a = fnode.args
     params = {p.arg for p in a.posonlyargs + a.args + a.kwonlyargs}
+    plain_assigned = set()
+    for n in walk_own(fnode):
+        if isinstance(n, ast.Assign):
+            for t in n.targets:
+                if isinstance(t, ast.Name):
+                    plain_assigned.add(t.id)
     changed = False
     for comp in [n for n in ast.walk(fnode) if isinstance(n, (ast.ListComp, ast.SetComp, ast.DictComp, ast.GeneratorExp))]:
         own = {}
@@ -3300,7 +3306,10 @@ def rename_comprehension_targets(fnode, counter):
             for x in ast.walk(g.target):
                 if isinstance(x, ast.Name):
                     own[x.id] = own.get(x.id, 0) + 1
-        clash = [nm for nm, c in own.items() if stores.get(nm, 0) > c or nm in params]
+        # only a plain assignment elsewhere makes the shared name a problem (a record / tuple local that must be a single binding);
+        # loop variables and other comprehensions of the same name are left alone - rules and receiver hints know them by name
+        assigned = getattr(rename_comprehension_targets, "_assigned", None)
+        clash = [nm for nm, c in own.items() if nm in plain_assigned]
         if not clash:
             continue
         counter[0] += 1
